@@ -315,8 +315,61 @@ void stop_race() {
     vf_choice_end();
     vf_witness();
 }
+
+// A batch of units handed to the pool in ONE suspend point (pool.resume(sp)) while several workers are parked. The unit that happens to run first does not
+// return before its siblings have run (a rendezvous): it lets the other runnable workers run meanwhile. Every unit must be executed - a unit queued on a
+// running pool must not wait for a busy worker while another worker sleeps un-notified.
+int bw_first = -1, bw_m = 0;
+vf_fake_coro bw_fake[3];
+extern "C" void c11_bw_resume(vf_fake_coro *f) {
+    f->resumed++;
+    const int me = vf_thread_self();
+    VF_ASSERT(me >= 1 && me <= G->nthreads, "C11 a job is executed on one of the pool's worker threads");
+    if (bw_first >= 0) return;
+    bw_first = f->id;
+    for (int tries = 0; tries < 4; tries++) {
+        bool all = true;
+        for (int i = 0; i < bw_m; i++) if (i != f->id && !bw_fake[i].resumed) all = false;
+        if (all) return;
+        int r = 0;
+        for (int i = 1; i <= G->nthreads; i++) if (!r && i != me && vf_thread_runnable(i)) r = i;
+        VF_ASSERT(r != 0, "C11 a unit queued on a running pool is never executed although a worker is idle (it was not notified: lost wake-up)");
+        VF_ASSUME(r != 0);
+        vf_thread_run(r);
+    }
+}
+void batch_wake() {
+    vf_warmup();
+    Ctx cx; G = &cx;
+    const int n = 2 + vf_choice(2);
+    bw_m = 2 + vf_choice(2);
+    vf_cond_pick(vf_choice(2));
+    bw_first = -1;
+    const long base = vf_live_allocs();
+    cx.nthreads = n;
+    cx.pool = new thread_pool(n);
+    for (int i = 1; i <= n; i++) vf_thread_run(i);             // every worker is parked in its wait
+    {
+        suspend_point<void> sp;
+        for (int i = 0; i < bw_m; i++) { sp << vf_fake_handle(bw_fake[i], i); bw_fake[i].resume_fn = &c11_bw_resume; }
+        cx.pool->resume(sp);
+    }
+    for (int t = 0; t < 8; t++) {
+        int r = 0;
+        for (int i = 1; i <= n; i++) if (!r && vf_thread_runnable(i)) r = i;
+        if (!r) break;
+        vf_thread_run(r);
+    }
+    for (int i = 0; i < bw_m; i++) { VF_ASSERT(bw_fake[i].resumed == 1, "C11 resume(suspend_point): every handle of the batch is resumed on a worker exactly once"); vf_out(bw_fake[i].resumed); }
+    do_destroy();
+    for (int i = 1; i <= n; i++) VF_ASSERT(vf_thread_state(i) == 5, "C11 after the pool is destroyed every worker has terminated");
+    VF_ASSERT(vf_live_allocs() == base, "C11 nothing leaked (closures, coroutine frames, thread start states, workers' thread-local queues)");
+    vf_choice_end();
+    vf_witness();
+}
 }
 
+extern "C" void h_batch_wake() { batch_wake(); }
 extern "C" void h_pool() { run_history(false); }
 extern "C" void h_raw_cancel() { run_history(true); }
 extern "C" void h_stop_race() { stop_race(); }
